@@ -7,6 +7,7 @@ package mqtt
 
 import (
 	"bytes"
+	"context"
 	"fmt"
 	"runtime"
 	"testing"
@@ -25,11 +26,16 @@ type c04Step struct {
 }
 
 type c04Case struct {
-	Handler string    `json:"handler"` // on | off | half
-	HalfAt  int       `json:"halfAt,omitempty"`
-	MaxRead int       `json:"maxRead,omitempty"`
-	Yield   bool      `json:"yield,omitempty"`
-	Steps   []c04Step `json:"steps"`
+	Handler string `json:"handler"` // on | off | half
+	HalfAt  int    `json:"halfAt,omitempty"`
+	MaxRead int    `json:"maxRead,omitempty"`
+	Yield   bool   `json:"yield,omitempty"`
+	// HandlerCalls: what the handler does with the client from inside its callback
+	// ("" nothing, "publish" a QoS0 publish, "done" Done()+Err(), "handle" re-registers itself)
+	HandlerCalls string `json:"handlerCalls,omitempty"`
+	// Outbound: number of QoS2 publishes issued by another goroutine while the inbound sequence is processed
+	Outbound int       `json:"outbound,omitempty"`
+	Steps    []c04Step `json:"steps"`
 }
 
 var c04IDs = []int{1, 2, 3, 7, 255, 256, 65535}
@@ -98,9 +104,11 @@ func c04Normalise(raw []c04Raw) []c04Step {
 
 func c04Gen(rt *rapid.T) c04Case {
 	c := c04Case{
-		Handler: rapid.SampledFrom([]string{"on", "on", "on", "off", "half"}).Draw(rt, "handler"),
-		MaxRead: rapid.SampledFrom([]int{0, 0, 1, 2, 3, 7}).Draw(rt, "maxRead"),
-		Yield:   rapid.Bool().Draw(rt, "yield"),
+		Handler:      rapid.SampledFrom([]string{"on", "on", "on", "off", "half"}).Draw(rt, "handler"),
+		MaxRead:      rapid.SampledFrom([]int{0, 0, 1, 2, 3, 7}).Draw(rt, "maxRead"),
+		Yield:        rapid.Bool().Draw(rt, "yield"),
+		HandlerCalls: rapid.SampledFrom([]string{"", "", "", "publish", "done", "handle"}).Draw(rt, "handlerCalls"),
+		Outbound:     rapid.SampledFrom([]int{0, 0, 0, 2, 5}).Draw(rt, "outbound"),
 	}
 	c.Steps = c04GenSteps(rt, 40)
 	if c.Handler == "half" {
@@ -230,7 +238,8 @@ func c04Compare(exp []c04Exp, obs []vEvent) string {
 // c04Drive feeds the steps to a connected client and returns the observed timeline
 // (H, HE, W events excluding CONNECT and sync markers).
 func c04Drive(tb rapid.TB, r *baseRig, c c04Case) ([]vEvent, bool) {
-	h := HandlerFunc(func(m *Message) {
+	var h Handler
+	h = HandlerFunc(func(m *Message) {
 		if m.Topic == vSyncTopic {
 			return
 		}
@@ -238,6 +247,17 @@ func c04Drive(tb rapid.TB, r *baseRig, c c04Case) ([]vEvent, bool) {
 		r.log.add(1, "H", &pk, "")
 		if c.Yield {
 			runtime.Gosched()
+		}
+		switch c.HandlerCalls {
+		case "publish": // a handler that answers on the same client
+			hctx, hc := context.WithTimeout(context.Background(), 20*time.Second)
+			_ = r.cli.Publish(hctx, &Message{Topic: "reply", Payload: []byte("r")})
+			hc()
+		case "done":
+			_ = r.cli.Done()
+			_ = r.cli.Err()
+		case "handle":
+			r.cli.Handle(h)
 		}
 		r.log.add(1, "HE", nil, "")
 	})
@@ -248,6 +268,22 @@ func c04Drive(tb rapid.TB, r *baseRig, c c04Case) ([]vEvent, bool) {
 	r.conn.mu.Lock()
 	r.conn.maxRead = c.MaxRead
 	r.conn.mu.Unlock()
+	if c.Outbound > 0 {
+		// the application publishes QoS2 messages meanwhile: its PUBREL shares the wire with the reader's acknowledgements
+		r.peer.mu.Lock()
+		r.peer.auto = bpeerBrokerAuto
+		r.peer.mu.Unlock()
+		outDone := make(chan struct{})
+		go func() {
+			defer close(outDone)
+			for k := 0; k < c.Outbound; k++ {
+				octx, oc := context.WithTimeout(context.Background(), 20*time.Second)
+				_ = r.cli.Publish(octx, &Message{Topic: "out", QoS: QoS2, Payload: []byte("o")})
+				oc()
+			}
+		}()
+		defer func() { <-outDone }()
+	}
 	for i, s := range c.Steps {
 		if c.Handler == "half" && i == c.HalfAt {
 			if !r.peer.sync(20 * time.Second) {
@@ -272,6 +308,9 @@ func c04Drive(tb rapid.TB, r *baseRig, c c04Case) ([]vEvent, bool) {
 		case "W":
 			if e.Pkt.Type == rtConnect || vIsSyncPkt(*e.Pkt) {
 				continue
+			}
+			if e.Pkt.Type == rtPublish || e.Pkt.Type == rtPubRel {
+				continue // the application's own outbound traffic (handler replies, concurrent publisher)
 			}
 			obs = append(obs, e)
 		}
